@@ -77,7 +77,10 @@ class Stepper(object):
         cond = self.condition()
         before = h.regions()
         pts = probe_points(before)
-        inside_before = [h.state.isPointExcluded(x, y) for (x, y) in pts]
+        # a point counts as excluded before the request if the plugin says so or if it lies in one of the listed regions by an
+        # independent closed test (so a broken membership test cannot make the invariant vacuous)
+        regs_before = [to_internal(d) for d in before]
+        inside_before = [bool(h.state.isPointExcluded(x, y)) or any(geom.signed_dist(r, x, y) <= 0 for r in regs_before) for (x, y) in pts]
         _, command, data = op
         resp = h.api(command, data)
         after = h.regions()
